@@ -275,7 +275,7 @@ func intcomFaultBody(x *engine.X) {
 		case err == nil:
 			x.Failf("intcom/open/accepts-"+fieldOf(what), "%s: Open ACCEPTED after lone change %s", id, what)
 		default:
-			lt["reject"]++
+			lt["reject-"+fieldOf(what)]++
 		}
 	}
 	for _, ch := range intChanges(m, msgs) {
@@ -317,7 +317,7 @@ func intcomFaultBody(x *engine.X) {
 			if o.pub.Open(C, M, W) == nil {
 				x.Failf("intcom/open/accepts-key", "%s: key %s over a different modulus ACCEPTED the opening", id, o.name)
 			}
-			lt["reject"]++
+			lt["reject-key"]++
 		}
 	}
 	for _, ch := range unitChanges(cv, t, n) {
@@ -337,6 +337,19 @@ func intcomFaultBody(x *engine.X) {
 			x.Failf("intcom/Commit/err", "%s: commitments.Commit failed: %v", id, err)
 		} else if refIntcom(n, s, t, m, W3.Value().Big()).Cmp(C3.Value().Value().Big()) != 0 || key.Open(C3, M, W3) != nil {
 			x.Failf("intcom/Commit/value", "%s: commitments.Commit output does not open / differs from s^m·t^r", id)
+		}
+	}
+	if wi == len(wits)-1 {
+		C4, shift, err := commitments.ReRandomise(key, C, newStream(id+"/ReRandomise"))
+		x.Case(id + "/ReRandomise")
+		if err != nil {
+			x.Failf("intcom/ReRandomise/err", "%s: commitments.ReRandomise failed: %v", id, err)
+		} else {
+			r4 := new(big.Int).Add(r, shift.Value().Big())
+			W4, err := key.WitnessOp(W, shift)
+			if err != nil || refIntcom(n, s, t, m, r4).Cmp(C4.Value().Value().Big()) != 0 || key.Open(C4, M, W4) != nil {
+				x.Failf("intcom/ReRandomise/value", "%s: re-randomised commitment does not open to (m, w+shift) (err=%v)", id, err)
+			}
 		}
 	}
 	if key.Open(nil, M, W) == nil || key.Open(C, nil, W) == nil || key.Open(C, M, nil) == nil {
